@@ -2,6 +2,7 @@ import Spine.Num
 import Spine.IsRnd
 import Spine.Dur
 import Spine.TimePeriod
+import Spine.DurText
 open Spine Spine.Num
 /-! Line protocol for the numeric / temporal models of C19. One op per line, one answer per line.
     Member of the model family: command-line arguments `trunc=0|1 inexact=0|1` or the op `cfg t i`.
@@ -51,6 +52,28 @@ def periodStr (p : Dur.Period) : String := s!"{p.years} {p.months} {p.days} {p.h
 
 partial def digestDur (z z1 step : Int) (h : UInt64) (cnt : Nat) : UInt64 × Nat :=
   if z > z1 then (h, cnt) else digestDur (z + step) z1 step (mixI h (Dur.roundTrip z)) (cnt + 1)
+
+def textOf (s : String) : DurText.Text := s.toList.map Char.toNat
+def strOf (t : DurText.Text) : String := String.ofList (t.map Char.ofNat)
+
+/-- `period.Parse(text)`: `err`, `range` (outside the model) or `DurationApprox in ns` + `String()` -/
+def answerParse (w : String) : String :=
+  let t := textOf w
+  if DurText.longRun t 0 then "range" else
+  match DurText.parse t with
+  | none => "err"
+  | some p => s!"{DurText.approxNs p} {strOf (DurText.render p)}"
+
+/-- digest over the texts of `z * 100 ms` and what they are read back as (in units of 100 ms; a fraction of
+    100 ms or an error = the minimum of int64, as the harness encodes it) -/
+partial def digestDurText (z z1 step : Int) (h : UInt64) (cnt : Nat) : UInt64 × Nat :=
+  if z > z1 then (h, cnt) else
+  let t := DurText.newDurationType (z * 100000000)
+  let h := t.foldl mix h
+  let back : Int := match DurText.getTimeDuration t with
+    | some ns => if ns % 100000000 == 0 then ns / 100000000 else -9223372036854775808
+    | none => -9223372036854775808
+  digestDurText (z + step) z1 step (mixI h back) (cnt + 1)
 
 /-- `-`, `r:<ns>` or `a:<ns>` -/
 def parseT (w : String) : Option TP.T :=
@@ -102,11 +125,21 @@ def answer (cfg : Cfg) (ws : List String) : Cfg × String :=
       (cfg, if !inRange g then "range" else if !(chk (n.natAbs, 1) && chk r) then "isrnd-fail" else toString (bits g))
     | _, _ => (cfg, "bad-op")
   | ["dur", z] => match z.toInt? with
-    | some z => (cfg, s!"{periodStr (Dur.newOf z.natAbs)} {Dur.roundTrip z}")
+    | some z => (cfg, if Dur.monthsOk z.natAbs then s!"{periodStr (Dur.newOf z.natAbs)} {Dur.roundTrip z}" else "range")
     | none => (cfg, "bad-op")
   | ["durns", z] => match z.toInt? with
-    | some z => (cfg, toString (Dur.roundTripNs z))
+    | some z => (cfg, if Dur.monthsOk (z.natAbs / 100000000) then toString (Dur.roundTripNs z) else "range")
     | none => (cfg, "bad-op")
+  | ["dtext", ns] => match ns.toInt? with
+    | some ns => (cfg, if Dur.monthsOk (ns.natAbs / 100000000) then strOf (DurText.newDurationType ns) else "range")
+    | none => (cfg, "bad-op")
+  | ["dparse", w] => (cfg, answerParse w)
+  | ["dtrange", z0, z1, step] => match z0.toInt?, z1.toInt?, step.toInt? with
+    | some z0, some z1, some step =>
+      if step ≤ 0 then (cfg, "bad-op") else
+      let (h, n) := digestDurText z0 z1 step (UInt64.ofNat 1469598103934665603) 0
+      (cfg, s!"digest {h.toNat} {n}")
+    | _, _, _ => (cfg, "bad-op")
   | ["drange", z0, z1, step] => match z0.toInt?, z1.toInt?, step.toInt? with
     | some z0, some z1, some step =>
       if step ≤ 0 then (cfg, "bad-op") else
